@@ -2221,8 +2221,13 @@ func zRange(n *Nodis, conn *redis.Conn, cmd redis.Command) {
 	key := cmd.Args[0]
 	var mode int
 	if cmd.Options.BYSCORE > 2 {
+		// with REV the first bound is the maximum and the second the minimum
+		firstOpen, secondOpen := zset.MinOpen, zset.MaxOpen
+		if cmd.Options.REV > 2 {
+			firstOpen, secondOpen = zset.MaxOpen, zset.MinOpen
+		}
 		if cmd.Args[1][0] == '(' {
-			mode = zset.MinOpen
+			mode = firstOpen
 		}
 		var min, max float64
 		var err error
@@ -2236,7 +2241,7 @@ func zRange(n *Nodis, conn *redis.Conn, cmd redis.Command) {
 			return
 		}
 		if cmd.Args[2][0] == '(' {
-			mode |= zset.MaxOpen
+			mode |= secondOpen
 		}
 		if cmd.Options.REV > 2 {
 			max, err = redis.FormatFloat64(cmd.Args[1])
@@ -2436,8 +2441,9 @@ func zRevRangeByScore(n *Nodis, conn *redis.Conn, cmd redis.Command) {
 	}
 	key := cmd.Args[0]
 	var mode int
+	// ZREVRANGEBYSCORE key max min: the second bound is the minimum
 	if cmd.Args[2][0] == '(' {
-		mode = zset.MaxOpen
+		mode = zset.MinOpen
 	}
 	min, err := redis.FormatFloat64(cmd.Args[2])
 	if err != nil {
@@ -2445,7 +2451,7 @@ func zRevRangeByScore(n *Nodis, conn *redis.Conn, cmd redis.Command) {
 		return
 	}
 	if cmd.Args[1][0] == '(' {
-		mode |= zset.MinOpen
+		mode |= zset.MaxOpen
 	}
 	max, err := redis.FormatFloat64(cmd.Args[1])
 	if err != nil {
